@@ -72,13 +72,27 @@ mod proofs {
             gates_t.append(extract(cx, r'^impl<T> CanDerive%s for T$' % tr, what='impl CanDerive%s for T' % tr))
         doi = extract(mod, r'^fn derives_of_item\(', what='derives_of_item')
         ird = strip_uses(strip_inner(rd('ir/derive.rs')))
-        h = open(os.path.join(G, 'harness', 'c08_gates.rs')).read()
+        om = rd('options/mod.rs')
+        meths = []
+        for opt in ('derive_partialord', 'derive_ord', 'derive_partialeq', 'derive_eq'):
+            mo = re.search(r'^    %s: bool \{' % opt, om, flags=re.M)
+            if not mo:
+                raise SliceError('options! entry %s not found' % opt)
+            entry = om[mo.start():match_brace(om, mo.end() - 1)]
+            mm = re.search(r'methods: \{', entry)
+            if not mm:
+                raise SliceError('options! entry %s: methods block not found' % opt)
+            meths.append(entry[mm.end():match_brace(entry, mm.end() - 1) - 1])
+        meths_t = '\n'.join(meths)
+        h = open(os.path.join(G, 'harness', 'c08_gates.rs')).read().replace('/*DERIVE_OPTION_METHODS*/', meths_t)
         h = h.replace('/*LOOKUPS*/', '\n'.join(lookups)).replace('/*IR_DERIVE*/', ird).replace('/*GATES*/', '\n'.join(gates_t)).replace('/*DERIVES_OF_ITEM*/', doi)
         kk = Kernel(name='gates')
         kk.files = {'src/lib.rs': h}
         kk.harnesses = [H('option_gates_and_float_exclusion', desc='impl CanDerive* for T x lookup_*: all 2^8 option combinations, all analysis answers; Eq/Ord need PartialEq == Yes and no float; Copy needs no type parameter in an array', sample='2^8 options x analysis answers'),
+                        H('comparison_derive_options_stay_closed_under_supertraits', desc='Builder::{derive_partialord, derive_ord, derive_partialeq, derive_eq} (real methods): one call from any closed option state leaves it closed (Ord => Eq and PartialOrd, PartialOrd => PartialEq, Eq => PartialEq) - inductive step over every call sequence', sample='4 methods x on/off x every closed state'),
+                        H('derived_set_is_closed_under_supertraits', desc='derives_of_item on closed options: the derived set never contains Ord without Eq / PartialOrd, PartialOrd or Eq without PartialEq, Copy without Clone', sample='options x answers x annotations x packed'),
                         H('derive_set_assembly', desc='derives_of_item: Clone iff Copy, packed and not Copy => nothing, annotations veto Copy/Debug/Default', sample='options x answers x annotations x packed')]
-        kk.encoded = [enc('ir/context.rs', 'impl CanDerive{Debug,Default,Copy,Hash,PartialOrd,PartialEq,Eq,Ord} for T', '\n'.join(gates_t)), enc('ir/context.rs', 'lookup_can_derive_* / lookup_has_float', '\n'.join(lookups)),
+        kk.encoded = [enc('options/mod.rs', 'options! derive_partialord / derive_ord / derive_partialeq / derive_eq: methods blocks', meths_t) if False else {'file': 'bindgen/options/mod.rs', 'item': 'options! derive_partialord / derive_ord / derive_partialeq / derive_eq: methods blocks', 'sha256': sha(meths_t), 'lines': None}, enc('ir/context.rs', 'impl CanDerive{Debug,Default,Copy,Hash,PartialOrd,PartialEq,Eq,Ord} for T', '\n'.join(gates_t)), enc('ir/context.rs', 'lookup_can_derive_* / lookup_has_float', '\n'.join(lookups)),
                       enc('codegen/mod.rs', 'fn derives_of_item', doi), enc('ir/derive.rs', 'whole file', rd('ir/derive.rs'))]
         kk.stubs = ['BindgenContext: option flags + the analysis result sets as one-element stand-ins (contains/get answer a symbolic value)', 'DerivableTraits: u16 newtype with the constants of the bitflags type', 'Item: id + three annotation flags; CanDerive* for Item forwards to the id (as ir/item.rs does)']
         kk.bounds = ['no loops; every combination']
